@@ -562,6 +562,21 @@ def _canon_with(stmts, done, where):
                 done.append("%s: explicit __enter__/__exit__ of `%s` read as a with block" % (where, ast.unparse(cm)))
                 i += 2
                 continue
+        # L.acquire(); try: BODY finally: L.release()   ==>   with L: BODY   (a lock taken and released by hand)
+        if isinstance(s, ast.Expr) and _is_call_attr(s.value, "acquire") and not s.value.args and not s.value.keywords and i + 1 < len(stmts) \
+                and isinstance(stmts[i + 1], ast.Try):
+            tr = stmts[i + 1]
+            lk = s.value.func.value
+            fin = tr.finalbody
+            if not tr.handlers and not tr.orelse and len(fin) == 1 and isinstance(fin[0], ast.Expr) and _is_call_attr(fin[0].value, "release") \
+                    and not fin[0].value.args and ast.unparse(fin[0].value.func.value) == ast.unparse(lk):
+                w = ast.With(items=[ast.withitem(context_expr=lk, optional_vars=None)], body=_canon_with(tr.body, done, where))
+                ast.copy_location(w, s)
+                ast.fix_missing_locations(w)
+                out.append(w)
+                done.append("%s: acquire / try / finally release of `%s` read as a with block" % (where, ast.unparse(lk)))
+                i += 2
+                continue
         out.append(s)
         i += 1
     return out
@@ -664,12 +679,62 @@ def _canon_call_memo(tree: ast.Module, done, where):
                 i += 1
         walk_blocks(f.body)
 
+
+NT_FIELDS: Dict[str, int] = {}      # field name -> position, for the NamedTuple classes of the tree last normalised
+
+
+def _canon_namedtuples(modules, done):
+    """`class R(NamedTuple): a: A; b: B` is a tuple with named positions: `R(x, y)` reads like `(x, y)` (and `r.b` like `r[1]`,
+    see Expander._attr) - a result type given a name keeps meaning what the plain tuple meant."""
+    NT_FIELDS.clear()
+    classes = {}
+    for name in sorted(modules):
+        for n in ast.walk(modules[name].tree):
+            if isinstance(n, ast.ClassDef) and any((isinstance(b, ast.Name) and b.id == "NamedTuple") or (isinstance(b, ast.Attribute) and b.attr == "NamedTuple") for b in n.bases):
+                fields = [st.target.id for st in n.body if isinstance(st, ast.AnnAssign) and isinstance(st.target, ast.Name)]
+                if fields and not any(isinstance(st, ast.AnnAssign) and st.value is not None for st in n.body):
+                    classes[n.name] = None if n.name in classes else fields
+    classes = {k: v for k, v in classes.items() if v}
+    if not classes:
+        return
+    pos = {}
+    for fields in classes.values():
+        for i, f in enumerate(fields):
+            pos.setdefault(f, set()).add(i)
+    NT_FIELDS.update({f: next(iter(ix)) for f, ix in pos.items() if len(ix) == 1})
+
+    class T(ast.NodeTransformer):
+        def visit_Call(self, n):
+            self.generic_visit(n)
+            nm = n.func.id if isinstance(n.func, ast.Name) else (n.func.attr if isinstance(n.func, ast.Attribute) else None)
+            fields = classes.get(nm)
+            if not fields or any(isinstance(a, ast.Starred) for a in n.args) or any(k.arg is None for k in n.keywords):
+                return n
+            vals = list(n.args)
+            if n.keywords:
+                byname = {k.arg: k.value for k in n.keywords}
+                for f in fields[len(vals):]:
+                    if f not in byname:
+                        return n
+                    vals.append(byname[f])
+            if len(vals) != len(fields):
+                return n
+            return ast.copy_location(ast.Tuple(elts=vals, ctx=ast.Load()), n)
+    for name in sorted(modules):
+        before = sum(1 for x in ast.walk(modules[name].tree) if isinstance(x, ast.Call))
+        modules[name].tree = T().visit(modules[name].tree)
+        ast.fix_missing_locations(modules[name].tree)
+        after = sum(1 for x in ast.walk(modules[name].tree) if isinstance(x, ast.Call))
+        if after != before:
+            done.append("%s: %d NamedTuple constructions read as tuples" % (name, before - after))
+
 def undo_extractions(modules: Dict[str, object], known: Optional[set] = None) -> List[str]:
     """modules: name -> object with `.tree` (ast.Module). Returns a description of what was spliced back."""
     known = load_known() if known is None else known
     if not known:
         return []           # no reference table: analyse the tree as it is
     done = []
+    _canon_namedtuples(modules, done)
     for name in sorted(modules):
         m = modules[name]
         for cls_, f_ in _defs(m.tree):
